@@ -40,6 +40,7 @@ HEADERS = {   # header-driven formats: the column names the file itself carries
 }
 
 
+TEXT_NAME = "PTEN,KLLN-AS1.2"      # names keep their commas, dots and dashes (several genes on one bin are comma-joined)
 BED_NAME = "GENE ONE"      # BED is tab-separated: a name may contain a blank (e.g. "TERT promoter")
 
 
@@ -87,7 +88,7 @@ def file_model(fmt, FS, FE):
         if fmt in ("bed", "bed3", "bed4"):
             return iter([AbsLine(["chr1", FS, FE, BED_NAME, "0", "+"], "bed")])
         if fmt == "text":
-            return iter([AbsLine(["chr1", FS, FE, "GENE"], "text")])
+            return iter([AbsLine(["chr1", FS, FE, TEXT_NAME], "text")])
         if fmt == "seg":
             return iter([AbsLine(["ID", "chrom", "loc.start", "loc.end", "num.mark", "seg.mean"], "segheader")])
         if fmt in ("vcf-simple",):
@@ -116,6 +117,8 @@ def file_model(fmt, FS, FE):
                 return len(obj.fields) - 1 if args[0] == "\t" else 0
             if name in ("strip", "rstrip"):
                 return obj
+            if name == "replace" and len(args) >= 2 and all(isinstance(a, str) for a in args[:2]):
+                return AbsLine([f.replace(args[0], args[1]) if isinstance(f, str) else f for f in obj.fields], obj.kind)          # the numeric fields hold digits only
             raise Undecided(f"line.{name}")
         if hasattr(obj, "pattern") and hasattr(obj, "match") and name in ("match", "search") and args and isinstance(args[0], AbsLine):
             ln = args[0]
@@ -365,7 +368,7 @@ def d1_bed_names(chk, prog):
     """BED readers keep the whole 4th tab-separated field as the name (shared with C09: the read-count path reads its bins through them)"""
     readers = registry(prog, "READERS")
     n = 0
-    for fmt in ("bed", "bed4"):
+    for fmt in ("bed", "bed4", "text"):
         fi = readers.get(fmt)
         if fi is None:
             continue
@@ -382,8 +385,9 @@ def d1_bed_names(chk, prog):
         df = df.data if isinstance(df, GA) else df
         g = df.cols["gene"].v[0] if isinstance(df, DF) and "gene" in df.cols else None
         n += 1
-        chk.decide(g == BED_NAME, "coordinate-offset", f"reader {fmt}: the name column is the whole 4th tab-separated field", f"reader-name:{fmt}:{fi.qn}", fi.loc(),
-                   f"a BED name containing a blank ({BED_NAME!r}) is read back as {g!r}")
+        want_name = TEXT_NAME if fmt == "text" else BED_NAME
+        chk.decide(g == want_name, "coordinate-offset", f"reader {fmt}: the name column is the whole name field of the line ({want_name!r})", f"reader-name:{fmt}:{fi.qn}", fi.loc(),
+                   f"a name such as {want_name!r} is read back as {g!r}")
     chk.floor("BED readers with a name column", n, 2)
 
 
